@@ -29,7 +29,10 @@ RULE = ("lists of 1..5 random well-formed trees (2..12 tips, rooted / unrooted /
         "PhyloXML document (<name>/<branch_length>/<confidence> in any order, indented or not, tips through <taxonomy>) and goes "
         "document -> tree, document -> WritePhyloXML -> tree (oracle: name, length and support of every clade), document -> "
         "Newick / Nexus -> tree (oracle: the tree without the supports that Newick cannot print beside a name; the rest by "
-        "correspondence), single-tree accessor on the document; the command line (extra): `gotree reformat newick|nexus|nexus --translate|phyloxml -i IN [-o OUT]` on 6 lists (60 thorough) with "
+        "correspondence), single-tree accessor on the document; 30% of the lists are also rendered here as a Nexus file whose TREE "
+        "statements are spread over two or three TREES blocks (empty blocks included; no TRANSLATE table, one in every block, or in "
+        "the first only; TAXA block before / between) and read with the multi-tree and the single-tree reader (oracle: every tree "
+        "in file order, or an error record); the command line (extra): `gotree reformat newick|nexus|nexus --translate|phyloxml -i IN [-o OUT]` on 6 lists (60 thorough) with "
         "OUT fresh / an existing longer file / an existing shorter file / stdout (byte-identical), input from file and stdin, output "
         "read back with `reformat newick -f <fmt>` against the input; every list is "
         "also written from the trees as BUILT through the API (parent slots at random positions, as after a reroot) to PhyloXML "
@@ -209,6 +212,46 @@ def px_doc(rng, trees):
     out.append("</phyloxml>" + nl)
     return "".join(out)
 
+def _renamed(t, m):
+    return {"name": m.get(t["name"], t["name"]) if not kids(t) else t["name"], "coms": list(t["coms"]),
+            "slots": [None if sl is None else (sl[0], _renamed(sl[1], m)) for sl in t["slots"]]}
+
+def nx_doc(rng, trees, same_taxa):
+    """the trees as a Nexus file whose TREE statements are spread over two or three TREES blocks (some of them possibly
+    empty), rendered here: no TRANSLATE table, the same table in every non-empty block, or in the first block only (the later
+    blocks use its indices); a TAXA block before or between when the trees share their taxa.  Returns (text, plan)"""
+    k = len(trees)
+    nb = rng.choice([2, 2, 2, 3])
+    cuts = sorted(rng.randint(0, k) for _ in range(nb - 1))
+    groups = [list(range(a, b)) for a, b in zip([0] + cuts, cuts + [k])]
+    tables = rng.choice(["none", "none", "all", "first"])
+    tips = []
+    for t in trees:
+        for x in preorder(t):
+            if not kids(x) and x["name"] not in tips:
+                tips.append(x["name"])
+    idx = {n: str(i + 1) for i, n in enumerate(tips)}
+    taxa = "BEGIN TAXA;\n DIMENSIONS NTAX=%d;\n TAXLABELS %s;\nEND;\n" % (len(tips), " ".join(tips))
+    where = rng.choice(["", "", "before", "between"]) if same_taxa else ""
+    out = ["#NEXUS\n"]
+    if where == "before":
+        out.append(taxa)
+    seen_nonempty = False
+    for bi, g in enumerate(groups):
+        out.append("BEGIN TREES;\n")
+        tab = tables == "all" and g or tables == "first" and not seen_nonempty and g
+        if tab:
+            out.append(" TRANSLATE\n" + ",\n".join("  %s %s" % (idx[n], n) for n in tips) + "\n ;\n")
+        for i in g:
+            t = _renamed(trees[i], idx) if tables != "none" else trees[i]
+            out.append(" TREE tree%d = %s\n" % (i, newick(t)))
+        if g:
+            seen_nonempty = True
+        out.append("END;\n")
+        if bi == 0 and where == "between":
+            out.append(taxa)
+    return "".join(out), "%s/%s" % ("-".join(str(len(g)) for g in groups), tables)
+
 def ns_json(t):
     def node(x, div):
         d = {"name": x["name"], "node_attrs": {"div": div}}
@@ -346,8 +389,11 @@ def gen(rng, tier):
             layout = "lines"
         o = {"trees": [T(t) for t in trees], "translate": rng.random() < 0.5, "seps": seps_for(rng, layout, k),
              "breaks": layout == "breaks", "nsjson": ns_json(trees[0]), "pxdoc": px_doc(rng, trees)}
+        blocks = None
+        if rng.random() < 0.3:
+            o["nxdoc"], blocks = nx_doc(rng, trees, not differ)
         out.append({"sx": sx(o), "meta": {"ntrees": k, "layout": layout, "translate": o["translate"], "taxa": "differ" if differ else "same",
-                                          "labels": "with-keywords" if illegal else "legal", "numbers": numbers, "born": born}})
+                                          "labels": "with-keywords" if illegal else "legal", "numbers": numbers, "born": born, "blocks": blocks}})
     # the big files are spread over the chunks of 200 cases (one worker and judge process per chunk)
     bigs = bigs + boundary_cases(tier)
     step = max(1, len(out) // max(1, len(bigs)))
